@@ -4,6 +4,7 @@ A check = (1) re-check the property theorems with coqc, (2) run the implementati
 and the Gallina model (evaluated inside Coq with vm_compute) on the same cases and compare,
 (3) on a disagreement look for a concrete failing input and report, (4) write evidence.
 """
+import fcntl
 import hashlib
 import json
 import os
@@ -127,6 +128,26 @@ def ensure_build(prop=None):
         targets = sorted(str(v.relative_to(COQ))[:-2] + ".vo" for v in (COQ / "theories" / prop).glob("*.v"))
     p = subprocess.run(["./build.sh"] + targets, cwd=COQ, capture_output=True, text=True)
     return p.returncode == 0, (p.stdout + p.stderr)[-4000:]
+
+
+def regen_sources(prop):
+    """Re-translate the property's Python source units (harness/py2coq) from REPO's working tree into
+    coq/theories/Gen/*.v.  Returns {unit: {source, functions, problems}} (empty when the property has none)."""
+    sys.path.insert(0, str(VERIF / "harness" / "py2coq"))
+    try:
+        import translate as tr
+    finally:
+        sys.path.pop(0)
+    units = tr.units_of(prop)
+    if not units:
+        return {}
+    lock = _flock(COQ / ".build.lock")
+    try:
+        res = tr.regenerate(str(REPO), str(COQ / "theories" / "Gen"), units)
+    finally:
+        lock.close()
+    return {u: {"source": tr.UNITS[u][1], "functions": [q for _, q, _ in tr.UNITS[u][2]], "problems": res[u]}
+            for u in units}
 
 
 def scan_forbidden(prop=None):
@@ -347,6 +368,7 @@ class Check:
 
     # -- step 1 -----------------------------------------------------------------------
     def run_proofs(self):
+        gen = regen_sources(self.prop)
         ok, log = ensure_build(self.prop)
         forb = scan_forbidden(self.prop)
         pr = check_proofs(self.prop) if ok else {
@@ -355,6 +377,13 @@ class Check:
             "cmd": "cd /verif/coq && ./build.sh", "wall_s": 0, "log": log}
         pr["forbidden"] = forb
         pr["build_ok"] = ok
+        if gen:
+            pr["translated_units"] = gen
+            self.extra["translated_source_units"] = gen
+            bad = {u: g["problems"] for u, g in gen.items() if g["problems"]}
+            if bad:
+                pr["ok"] = False
+                pr["log"] = (pr.get("log") or "") + "\npy2coq could not translate: " + json.dumps(bad)
         if forb:
             pr["ok"] = False
         if self.tier == "thorough" and pr["ok"] and os.environ.get("VERIF_SKIP_COQCHK") != "1":
@@ -449,8 +478,10 @@ class Check:
             "wall_s": round(time.time() - self.t0, 2),
             "violations": len(self.violations),
         }
-        (VERIF / "evidence").mkdir(exist_ok=True)
-        (VERIF / "evidence" / f"{self.prop}.json").write_text(json.dumps(ev, indent=1, default=str) + "\n")
+        # evidence describes /repo; developer runs against a scratch tree (VERIF_REPO) must not overwrite it
+        evdir = VERIF / "evidence" if str(REPO) == "/repo" else VERIF / ".work" / "evidence-scratch"
+        evdir.mkdir(parents=True, exist_ok=True)
+        (evdir / f"{self.prop}.json").write_text(json.dumps(ev, indent=1, default=str) + "\n")
         for kid, (e, n) in sorted(self.known_hits.items()):
             print(f"KNOWN-FINDING: property={self.prop} {kid}: {e['what']} ({n} cases this run)")
         for v in self.violations:
